@@ -335,7 +335,9 @@ async fn handle_stream_append(
         })
         .transpose()
     {
-        Ok(meta) => meta,
+        // JSON null is how a frame without meta is written: accepting it as a meta value
+        // would hand back a frame that differs from the one later read
+        Ok(meta) => meta.filter(|m: &serde_json::Value| !m.is_null()),
         Err(e) => return response_400(e.to_string()),
     };
 
